@@ -43,6 +43,13 @@ impl<T: Read + Seek> E57Reader<T> {
         let mut reader = PagedReader::new(reader, header.page_size)
             .read_err("Failed creating paged CRC reader")?;
 
+        // The header above was read without any CRC validation.
+        // Read it again through the CRC layer to detect a corrupted header.
+        reader
+            .seek_physical(0)
+            .read_err("Cannot seek to start of the file")?;
+        let header = Header::read(&mut reader)?;
+
         // Read and parse XML data
         let xml_raw = Self::extract_xml(
             &mut reader,
